@@ -7,6 +7,9 @@ from framework import PropertyCheck, Scenario
 from impl import instance_line
 
 
+HASH_MOD = 2 ** 61 - 1      # CPython reduces ints modulo this prime before hashing: a pair differing by it collides in every hash-based shortcut
+
+
 def inst_tokens(jobs):
     return instance_line(jobs).split(" ", 1)[1]
 
@@ -65,7 +68,8 @@ class Check(PropertyCheck):
                     b[0] = b[0][:-1] if len(b[0]) > 1 and rng.random() < 0.5 else b[0] + [max(b[0]) + 1]
                 elif field in ("dur", "job", "pos", "id"):
                     idx = {"dur": 1, "job": 2, "pos": 3, "id": 4}[field]
-                    b[idx] += rng.choice([1, 2])
+                    # (differences that Python's int hash cannot see: hash(n) == hash(n + 2**61 - 1))
+                    b[idx] += HASH_MOD if field == "dur" and rng.random() < 0.3 else rng.choice([1, 2])
             if kind == "op":
                 lines.append(f"eqop {op_tokens(*a)} ; {op_tokens(*b)}")
             else:
@@ -74,7 +78,7 @@ class Check(PropertyCheck):
                     sa[0] += 10 ** rng.choice([9, 12, 15, 18])     # start times are exact integers at any magnitude
                 sb = list(sa)
                 if field == "start":
-                    sb[0] += 1
+                    sb[0] += HASH_MOD if rng.random() < 0.3 else 1
                 elif field == "machine":
                     others = [m for m in b[0] if m != sa[1]]
                     if others:
@@ -94,7 +98,7 @@ class Check(PropertyCheck):
                 j = rng.randrange(len(jobs2))
                 if field == "dur":
                     p = rng.randrange(len(jobs2[j]))
-                    jobs2[j][p] = (jobs2[j][p][0], jobs2[j][p][1] + 1)
+                    jobs2[j][p] = (jobs2[j][p][0], jobs2[j][p][1] + (HASH_MOD if rng.random() < 0.3 else 1))
                 elif field == "machines":
                     p = rng.randrange(len(jobs2[j]))
                     jobs2[j][p] = ([jobs2[j][p][0][0] + 1], jobs2[j][p][1])
@@ -142,7 +146,7 @@ class Check(PropertyCheck):
                 else:
                     j = rng.randrange(len(jobs2))
                     p = rng.randrange(len(jobs2[j]))
-                    jobs2[j][p] = (jobs2[j][p][0], jobs2[j][p][1] + 1)
+                    jobs2[j][p] = (jobs2[j][p][0], jobs2[j][p][1] + (HASH_MOD if rng.random() < 0.3 else 1))
             lines.append(f"eqsched {inst_tokens(jobs)} ; {' '.join(map(str, h1))} ; {inst_tokens(jobs2)} ; "
                          f"{' '.join(map(str, h2))}")
             # same machine orders, start times shifted (a schedule with idle time at the front)
